@@ -4,7 +4,8 @@ specification, collect verdict lines, write evidence and replay files.
 
 Nothing here decides a property: verdicts are the VIOL lines printed by TLC while it checks the
 TLA+ modules in /verif/spec against the observations dumped by the harness."""
-import json, os, re, shutil, subprocess, sys, time, hashlib
+import json, os, re, shutil, subprocess, sys, time, hashlib, threading
+from concurrent.futures import ThreadPoolExecutor
 
 VERIF = os.path.dirname(os.path.dirname(os.path.abspath(__file__)))
 SPEC = os.path.join(VERIF, "spec")
@@ -41,10 +42,16 @@ def sh(cmd, cwd=None, env=None, timeout=None, check=True):
 # builds
 
 _built = {}
+_build_lock = threading.Lock()
 
 
 def build_harness(profile="dev"):
     """(Re)build the harness against /repo's current working tree; returns the binary path."""
+    with _build_lock:
+        return _build_harness(profile)
+
+
+def _build_harness(profile):
     if profile in _built:
         return _built[profile]
     cmd = ["cargo", "build", "--offline", "--quiet"] + (["--release"] if profile == "release" else [])
@@ -178,7 +185,7 @@ def load_known():
 
 def match_known(known, prop, view, clause, cfg=None):
     for k in known:
-        if k.get("property") != prop or k.get("view") != view or k.get("clause") != clause:
+        if k.get("property") != prop or k.get("view") != view.split("(")[0] or k.get("clause") != clause:
             continue
         cond = k.get("cfg_where")
         if cond and cfg is not None:
@@ -193,6 +200,8 @@ def match_known(known, prop, view, clause, cfg=None):
 
 class Run:
     def __init__(self, prop, tier, level):
+        self.lock = threading.RLock()
+        self.pending = []
         self.prop, self.tier, self.level = prop, tier, level
         self.seed = int(os.environ.get("VERIF_SEED", "0") or 0)
         self.t0 = time.time()
@@ -224,7 +233,28 @@ class Run:
             return
         self.violations.append({"view": view, "clause": clause, "cfg": cfg, "detail": detail, "replay": replay_obj})
 
+    def submit(self, fn, *a, **kw):
+        """queue a job; jobs run concurrently (a few TLC processes side by side) when finish() or drain() is called"""
+        self.pending.append((fn, a, kw))
+
+    def drain(self, parallel=3):
+        jobs, self.pending = self.pending, []
+        if not jobs:
+            return
+        errs = []
+        def one(j):
+            try:
+                j[0](self, *j[1], **j[2])
+            except ToolError as e:
+                errs.append(e)
+        with ThreadPoolExecutor(max_workers=parallel) as ex:
+            list(ex.map(one, jobs))
+        if errs:
+            raise errs[0]
+
     def finish(self, rule, trusted=None):
+        self.drain()
+        self.jobs.sort(key=lambda j: j["name"])
         os.makedirs(EVID, exist_ok=True)
         rc = 0
         for (view, clause, _), h in sorted(self.known_hits.items()):
@@ -275,7 +305,7 @@ def kind_of(cfg):
     return k
 
 
-def p1_job(run, name, module, scope, profile="dev", workers=8, timeout=1500, nontrivial_keys=("def.q", "def.f", "def.f2", "def.sq", "def.hold", "def.n"),
+def p1_job(run, name, module, scope, profile="dev", workers=5, timeout=1500, nontrivial_keys=("def.q", "def.f", "def.f2", "def.sq", "def.hold", "def.n"),
            view_label=None, extra_env=None, scope2=None):
     """Pipeline P1: dump the implementation's behaviour tree for `scope`, model-check `module` against it."""
     wd = run.wd
@@ -303,34 +333,71 @@ def p1_job(run, name, module, scope, profile="dev", workers=8, timeout=1500, non
     tally = res["tally"]
     if tally.get("states", 0) != res["distinct"]:
         raise ToolError("%s: invariant evaluated in %s states, expected %d (vacuous run?)" % (name, tally.get("states"), res["distinct"]))
-    run.states += res["distinct"]
-    run.transitions += res["states"]
-    run.traces += len(scope["cfgs"]) * a ** scope["maxlen"]
-    run.evaluations += res["distinct"]
-    nt = sum(tally.get(k, 0) for k in nontrivial_keys)
-    run.nontrivial += nt
-    run.jobs.append({"name": name, "pipeline": "P1", "module": module, "profile": profile, "cfgs": len(scope["cfgs"]),
-                     "alphabet": scope["alphabet"], "unit": scope.get("unit", 1), "maxlen": scope["maxlen"],
-                     "states": res["distinct"], "tally": tally, "harness_s": round(th, 2), "tlc_s": round(res["wall"], 2)})
+    with run.lock:
+        run.states += res["distinct"]
+        run.transitions += res["states"]
+        run.traces += len(scope["cfgs"]) * a ** scope["maxlen"]
+        run.evaluations += res["distinct"]
+        if nontrivial_keys is None:
+            nt = sum(v for k, v in tally.items() if k.startswith("range."))
+        else:
+            nt = sum(tally.get(k, 0) for k in nontrivial_keys)
+        run.nontrivial += nt
+        run.jobs.append({"name": name, "pipeline": "P1", "module": module, "profile": profile, "cfgs": len(scope["cfgs"]),
+                         "alphabet": scope["alphabet"], "unit": scope.get("unit", 1), "maxlen": scope["maxlen"],
+                         "states": res["distinct"], "tally": tally, "harness_s": round(th, 2), "tlc_s": round(res["wall"], 2)})
+        for v in res["viol"]:
+            prop, clause, c, ln, idx = v[0], v[1], v[2], v[3], v[4]
+            cfg = scope["cfgs"][c - 1]
+            hist = decode_hist(idx, ln, scope["alphabet"])
+            label = view_label(cfg) if view_label else kind_of(cfg)
+            detail = {"cfg": cfg, "inputs": hist, "unit": scope.get("unit", 1), "extra": v[5:]}
+            replay = {"kind": "p1", "module": module, "cfg": cfg, "inputs": hist, "unit": scope.get("unit", 1),
+                      "float": scope.get("float", "f64"), "profile": profile, "env": extra_env or {},
+                      "scope_rest": {k: v for k, v in scope.items() if k not in ("cfgs", "alphabet", "maxlen")}}
+            if scope2 is not None:
+                replay["scope2_rest"] = {k: v for k, v in scope2.items() if k not in ("cfgs", "alphabet", "maxlen")}
+                replay["cfg2"] = scope2["cfgs"][c - 1]
+                replay["inputs2"] = decode_hist(idx, ln, scope2["alphabet"])
+                replay["alphabet"] = scope["alphabet"]
+                replay["alphabet2"] = scope2["alphabet"]
+            run.add_violation(label, clause, cfg, detail, replay)
+        if len(run.samples) < 12 and scope["cfgs"]:
+            run.samples.append({"job": name, "cfg": scope["cfgs"][0], "example_history": decode_hist(a ** scope["maxlen"] // 3, scope["maxlen"], scope["alphabet"]),
+                                "unit": scope.get("unit", 1)})
+        if tally.get("viol", 0) > len(res["viol"]):
+            run.notes.append("%s: %d violating states in total (printing capped)" % (name, tally.get("viol", 0)))
+    return res
+
+
+def pair_job(run, name, scope, workers=8, timeout=1500):
+    """C10: pairs of histories over scope['pair_alphabet'], table over scope['alphabet'] (module MC_C10)."""
+    wd = run.wd
+    sp = os.path.join(wd, name + ".scope.json")
+    tb = os.path.join(wd, name + ".table.ndjson")
+    json.dump(scope, open(sp, "w"))
+    harness("table", sp, tb, "dev")
+    res = run_tlc("MC_C10", "MC.cfg", {"SCOPE": sp, "TABLE": tb}, wd, workers=workers, timeout=timeout)
+    pa = len(scope["pair_alphabet"]) ** 2
+    want = len(scope["cfgs"]) * sum(pa ** l for l in range(scope["maxlen"] + 1))
+    if res["distinct"] != want or res["tally"].get("states") != want:
+        raise ToolError("%s: explored %d states, expected %d" % (name, res["distinct"], want))
+    run.states += res["distinct"]; run.transitions += res["states"]
+    run.traces += len(scope["cfgs"]) * len(scope["alphabet"]) ** scope["maxlen"]
+    run.evaluations += res["distinct"] * len(scope["combos"])
+    run.nontrivial += res["tally"].get("superposition", 0)
+    run.jobs.append({"name": name, "pipeline": "P1-pairs", "module": "MC_C10", "cfgs": len(scope["cfgs"]), "table_alphabet": scope["alphabet"],
+                     "pair_alphabet": scope["pair_alphabet"], "combos": scope["combos"], "maxlen": scope["maxlen"],
+                     "states": res["distinct"], "tally": res["tally"], "tlc_s": round(res["wall"], 2)})
+    B = scope["alphabet"]
     for v in res["viol"]:
-        prop, clause, c, ln, idx = v[0], v[1], v[2], v[3], v[4]
+        _, clause, c, ln, ix, iy, k = v
         cfg = scope["cfgs"][c - 1]
-        hist = decode_hist(idx, ln, scope["alphabet"])
-        label = view_label(cfg) if view_label else kind_of(cfg)
-        detail = {"cfg": cfg, "inputs": hist, "unit": scope.get("unit", 1), "extra": v[5:]}
-        replay = {"kind": "p1", "module": module, "cfg": cfg, "inputs": hist, "unit": scope.get("unit", 1),
-                  "float": scope.get("float", "f64"), "profile": profile, "env": extra_env or {},
-                  "scope_rest": {k: v for k, v in scope.items() if k not in ("cfgs", "alphabet", "maxlen")}}
-        if scope2 is not None:
-            replay["scope2_rest"] = {k: v for k, v in scope2.items() if k not in ("cfgs", "alphabet", "maxlen")}
-            replay["cfg2"] = scope2["cfgs"][c - 1]
-            replay["inputs2"] = decode_hist(idx, ln, scope2["alphabet"])
-            replay["alphabet"] = scope["alphabet"]
-            replay["alphabet2"] = scope2["alphabet"]
-        run.add_violation(label, clause, cfg, detail, replay)
-    if len(run.samples) < 12 and scope["cfgs"]:
-        run.samples.append({"job": name, "cfg": scope["cfgs"][0], "example_history": decode_hist(a ** scope["maxlen"] // 3, scope["maxlen"], scope["alphabet"]),
-                            "unit": scope.get("unit", 1)})
-    if tally.get("viol", 0) > len(res["viol"]):
-        run.notes.append("%s: %d violating states in total (printing capped)" % (name, tally.get("viol", 0)))
+        x = decode_hist(ix, ln, B); y = decode_hist(iy, ln, B)
+        ab = scope["combos"][k - 1] if k else None
+        detail = {"cfg": cfg, "x": x, "y": y, "combo": ab, "unit": scope.get("unit", 1)}
+        replay = {"kind": "pairs", "cfg": cfg, "x": x, "y": y, "combo": ab, "scope": {k2: v2 for k2, v2 in scope.items() if k2 != "cfgs"}}
+        run.add_violation(kind_of(cfg), clause, cfg, detail, replay)
+    if len(run.samples) < 12:
+        run.samples.append({"job": name, "cfg": scope["cfgs"][0], "x": [1, 0, -1][:scope["maxlen"]], "y": [0, 1, 1][:scope["maxlen"]], "combo": scope["combos"][0]})
     return res
